@@ -1123,7 +1123,7 @@ fn dfs(state: Files, its: &[(LOp, usize, usize)], ops: &[OpRec], used: &mut Vec<
         let ok = match &its[i].0 {
             LOp::Real(oi) => {
                 let delete_of_dir = matches!(&ops[*oi].op, Op::Delete { path, .. } if ref_is_dir(&st, path));
-                if ERRORS_ARE_NOOPS.with(std::cell::Cell::get) && matches!(ops[*oi].reply, Some(Reply::Error(_))) && !matches!(ops[*oi].op, Op::Get { .. }) {
+                if ERRORS_ARE_NOOPS.with(std::cell::Cell::get) && matches!(ops[*oi].reply, Some(Reply::Error(_))) {
                     true // refused because the environment failed: no effect
                 } else if delete_of_dir && matches!(ops[*oi].reply, Some(Reply::Error(_))) {
                     true // a directory cannot be deleted as a file: refusing is as good as "nothing there"
